@@ -21,7 +21,7 @@ for name in "$@"; do
     PYTHONPATH=$wt env -u BUIDL_VERIF nice -n 5 /venv/bin/python -m pytest -q -p no:cacheprovider --timeout=900 -n 8 2>&1 \
       | grep -E "^(FAILED|ERROR)|passed|failed" | grep -v -E "socket_guard"
     echo "--- order/timing dependent tests re-run serially"
-    PYTHONPATH=$wt env -u BUIDL_VERIF /venv/bin/python -m pytest -q -p no:cacheprovider --timeout=900 \
+    PYTHONPATH=$wt env -u BUIDL_VERIF /venv/bin/python -m pytest -q -p no:cacheprovider -p no:rerunfailures --timeout=900 \
       test_multiwallet.py test_singlesweep.py buidl/test/test_psbt.py buidl/test/test_taproot.py 2>&1 \
       | grep -E "^(FAILED|ERROR)|passed|failed" | grep -v socket_guard
   } > "$log" 2>&1
